@@ -1142,6 +1142,13 @@ class Interp:
         if m is not None:
             self.call_method(o, m, args, kwargs)
         elif args or kwargs:
+            base = ci.node.bases[0] if len(ci.node.bases) == 1 else None
+            if isinstance(base, ast.Call) and ast.unparse(base.func).split('.')[-1] == 'namedtuple' and \
+                    not (ci.methods or ci.getters or ci.setters):
+                # class X(namedtuple('X', 'a b c')) with a docstring only: a plain record
+                nt = self.eval(base, Env(self.repo.module(ci.mod)))
+                self.p.alloc.remove(o)
+                return self.call(nt, args, kwargs)
             raise Unsupported(f'{ci.name}() without __init__')
         return o
 
